@@ -353,8 +353,20 @@ class Foreign(Engine):
                             continue
                         if n not in fsnap and n in tsnap:
                             raise Viol('foreign.overwrite', f'{tag}:stale_own_file_of_previous_occupant:{os.path.basename(n)}', n)
-                        if n in fsnap and fsnap[n][0] == 'file' and (tsnap[n][0] != 'file' or tsnap[n][2] != fsnap[n][2]):
-                            raise Viol('foreign.overwrite', f'{tag}:own_file_differs_from_fresh_creation:{os.path.basename(n)}', n)
+                        if n in fsnap and fsnap[n][0] == 'file':
+                            # data byte for byte, descriptions by meaning; of README.txt only the presence (its text is
+                            # C08's subject)
+                            same = tsnap[n][0] == 'file'
+                            if same and n.endswith('.bin'):
+                                same = tsnap[n][2] == fsnap[n][2]
+                            elif same and n.endswith('.json'):
+                                import json as _json
+                                try:
+                                    same = _json.loads(tsnap[n][2]) == _json.loads(fsnap[n][2]) or tsnap[n][2] == fsnap[n][2]
+                                except ValueError:
+                                    same = tsnap[n][2] == fsnap[n][2]
+                            if not same:
+                                raise Viol('foreign.overwrite', f'{tag}:own_file_differs_from_fresh_creation:{os.path.basename(n)}', n)
                     st['probes']['overwrite_result_equals_fresh_creation'] = 1
             # nothing outside the target may change
             d = snap_diff({k: v for k, v in pre.items() if not k.startswith('t.darr')},
